@@ -2181,7 +2181,7 @@ func TestVerifC18Sched(t *testing.T) {
 			r.Count("racy_scripted_cases", 1)
 		}
 	}
-	n := r.N(160, 2500)
+	n := r.N(160, 2000)
 	for ci := 0; ci < n; ci++ {
 		rng := r.Rand(ci)
 		fl := "partition"
@@ -2298,8 +2298,8 @@ func TestVerifC18Enum(t *testing.T) {
 		}
 		p := ep.p
 		for _, fl := range []string{"partition", "group"} {
-			if fl == "group" && !r.Thorough() {
-				continue // same LeaseManager code behind a different prefix: the quick tier enumerates one flavour
+			if fl == "group" && (!r.Thorough() || p.expire+p.notice > 1 || strings.Contains(p.name, "restart") || p.delayed) {
+				continue // same LeaseManager code behind a different prefix: the big trees are enumerated for one flavour
 			}
 			var path []int
 			count, exhausted := 0, false
